@@ -125,6 +125,13 @@ def tf_leaf_state(state, name):
               pre=[[mat(b) for b in np.asarray(ax)] for ax in bl.roots])
 
 
+def comp_name(i):
+  """Companion leaf names alternate between sorting before and after the tensor "w" in the flattened
+  tree: anything indexed by position in the flat list of statistics (e.g. per-statistic exponents) only
+  affects "w" when a companion precedes it (added after a seeded change was missed)."""
+  return ("a%d" if i % 2 == 0 else "z%d") % i
+
+
 def run_case(case):
   import jax
   import jax.numpy as jnp
@@ -145,7 +152,7 @@ def run_case(case):
   pB = {n: jnp.asarray(w0[sl(bx)]) for n, bx in zip(bnames, boxes)}
   pP = {"w": jnp.asarray(w0)}
   for i, (cs, _) in enumerate(case["companions"]):
-    pP["z%d" % i] = jnp.asarray(np.ones(cs, dtype))
+    pP[comp_name(i)] = jnp.asarray(np.ones(cs, dtype))
   sA, sB, sP = tx.init(pA), tx.init(pB), tx.init(pP)
   if case.get("eager", True):
     updA = updB = updP = tx.update          # op-by-op: identical primitive sequences per block
@@ -158,7 +165,7 @@ def run_case(case):
     gB = {n: jnp.asarray(g[sl(bx)]) for n, bx in zip(bnames, boxes)}
     gP = {"w": jnp.asarray(g)}
     for i in range(len(comps)):
-      gP["z%d" % i] = jnp.asarray(comps[i][t])
+      gP[comp_name(i)] = jnp.asarray(comps[i][t])
     uA, sA = updA(gA, sA, pA)
     uB, sB = updB(gB, sB, pB)
     uP, sP = updP(gP, sP, pP)
